@@ -116,4 +116,5 @@ func genMore(outDir string) {
 	genAuth(outDir)
 	genGamm(outDir)
 	genTwap(outDir)
+	genIncentives(outDir)
 }
